@@ -217,7 +217,16 @@ func c17Pure(tier string) *PureResult {
 
 // derived Couchbase-metadata / membership / leader-election settings: all subsets of override keys
 func c17Derived(res *PureResult, add func(string)) {
-	base := config.Dcp{Hosts: []string{"h1", "h2"}, Username: "user", Password: "pw", BucketName: "bk", SecureConnection: true, RootCAPath: "/ca"}
+	// (the main connection with and without TLS: the CA path is inherited either way, and the metadata connection
+	// may switch TLS on by itself)
+	for _, mainTLS := range []bool{true, false} {
+		c17DerivedMetadata(res, add, mainTLS)
+	}
+	c17DerivedRest(res, add)
+}
+
+func c17DerivedMetadata(res *PureResult, add func(string), mainTLS bool) {
+	base := config.Dcp{Hosts: []string{"h1", "h2"}, Username: "user", Password: "pw", BucketName: "bk", SecureConnection: mainTLS, RootCAPath: "/ca"}
 	type kv struct {
 		key, val string
 		chk      func(m *config.CouchbaseMetadata) (any, any, any) // got, overridden, inherited
@@ -236,7 +245,7 @@ func c17Derived(res *PureResult, add func(string)) {
 		{"connectionTimeout", "9s", func(m *config.CouchbaseMetadata) (any, any, any) {
 			return m.ConnectionTimeout, 9 * time.Second, time.Minute
 		}},
-		{"secureConnection", "false", func(m *config.CouchbaseMetadata) (any, any, any) { return m.SecureConnection, false, true }},
+		{"secureConnection", fmt.Sprint(!mainTLS), func(m *config.CouchbaseMetadata) (any, any, any) { return m.SecureConnection, !mainTLS, mainTLS }},
 		{"rootCAPath", "/mca", func(m *config.CouchbaseMetadata) (any, any, any) { return m.RootCAPath, "/mca", "/ca" }},
 	}
 	for mask := 0; mask < 1<<len(keys); mask++ {
@@ -257,10 +266,13 @@ func c17Derived(res *PureResult, add func(string)) {
 				want = over
 			}
 			if !reflect.DeepEqual(got, want) {
-				add(fmt.Sprintf("couchbase metadata %s = %v, want %v (override mask %x)", k.key, got, want, mask))
+				add(fmt.Sprintf("couchbase metadata %s = %v, want %v (override mask %x, main connection TLS %v)", k.key, got, want, mask, mainTLS))
 			}
 		}
 	}
+}
+
+func c17DerivedRest(res *PureResult, add func(string)) {
 	// membership: 2^5 subsets
 	mkeys := []struct {
 		key, val string
